@@ -8,7 +8,7 @@ REPO = Path(os.environ.get("VERIF_REPO", "/repo"))
 BUILD = VERIF / "build"
 SPEC = VERIF / "spec"
 HARNESS = VERIF / "harness"
-EVID = VERIF / "evidence"
+EVID = Path(os.environ.get("VERIF_EVID", str(VERIF / "evidence")))
 REPLAY = VERIF / "build" / "replay"
 NCPU = os.cpu_count() or 4
 
@@ -111,7 +111,7 @@ _re_counts = re.compile(r"(\d+) states generated, (\d+) distinct states found")
 _re_depth = re.compile(r"The depth of the complete state graph search is (\d+)")
 _re_inv = re.compile(r"Error: Invariant (\S+) is violated")
 _re_prop = re.compile(r"Error: (?:Temporal properties were violated|Action property (\S+) is violated|Action property .* is violated)")
-_re_cov = re.compile(r"^<(\w+) line \d+, col \d+ to line \d+, col \d+ of module (\w+)>: (\d+):(\d+)", re.M)
+_re_cov = re.compile(r"^<(\w+) line \d+, col \d+ to line \d+, col \d+ of module (\w+)(?: \([\d ]+\))?>: (\d+):(\d+)", re.M)
 
 
 def tlc(module, cfg, specdir=SPEC, workers=None, timeout=600, env=None, simulate=None, depth=None,
@@ -181,7 +181,8 @@ def tlc(module, cfg, specdir=SPEC, workers=None, timeout=600, env=None, simulate
             res.prints.append(s)
     if coverage:
         for m in _re_cov.finditer(res.out):
-            res.coverage[m.group(1)] = (int(m.group(3)), int(m.group(4)))
+            a, b = res.coverage.get(m.group(1), (0, 0))
+            res.coverage[m.group(1)] = (a + int(m.group(3)), b + int(m.group(4)))
     if cex.exists():
         try:
             j = json.loads(cex.read_text())
@@ -204,6 +205,11 @@ def tlc(module, cfg, specdir=SPEC, workers=None, timeout=600, env=None, simulate
 def _tail_err(out):
     lines = [l for l in out.splitlines() if "Error" in l or "error" in l or "Exception" in l]
     return " | ".join(lines[:6]) if lines else out[-600:]
+
+
+def enabled(res, *names):
+    """coverage self-test helper: was any of the (alias) action names ever enabled?"""
+    return any(res.coverage.get(n, (0, 0))[1] > 0 for n in names)
 
 
 def tlc_must(*a, **kw):
@@ -308,6 +314,9 @@ class Check:
             if sig not in self.known_seen:
                 self.known_seen[sig] = k
             return False
+        if any(v[0] == sig for v in self.violations):
+            self.extra["violations_same_signature"] = self.extra.get("violations_same_signature", 0) + 1
+            return True
         REPLAY.mkdir(parents=True, exist_ok=True)
         path = REPLAY / f"{self.prop}-{len(self.violations)}-{abs(hash(sig)) % 10**8}.json"
         path.write_text(json.dumps({"property": self.prop, "sig": sig, "text": text, "replay": replay_obj},
